@@ -778,8 +778,15 @@ fn run_case(out: &mut Sink, seed: u64, case: usize) {
         if fat {
             // a bulk load that needs several bottom-level branch nodes
             let mut m: BTreeMap<Key, Option<(u64, usize)>> = BTreeMap::new();
+            // clusters of 40 keys under a common 30-byte prefix: the separators between the leaves of a cluster are ~250 bits
+            let mut base = c.rng.bytes32();
             for j in 0..1300u64 {
-                let k = c.rng.bytes32();
+                if j % 40 == 0 {
+                    base = c.rng.bytes32();
+                }
+                let mut k = base;
+                k[30] = c.rng.below(256) as u8;
+                k[31] = c.rng.below(256) as u8;
                 m.insert(k, Some((j * 31 + 5, 900 + (j as usize % 400))));
             }
             let ch: Vec<(Key, Option<(u64, usize)>)> = m.into_iter().collect();
@@ -968,6 +975,50 @@ fn node_unit(out: &mut Sink, rng: &mut Rng, tag: &str) {
     }
 }
 
+
+/// `reconstruct` at a point its theorem excludes: a node whose first separator is NOT prefix-compressed although the
+/// prefix is not empty (`prefix_compressed = 0`, never built by the branch stage).  `reconstruct` files the node under
+/// `prefix ++ separator(0)`, `get_key(node, 0)` — what `find_key_pos` and the live index use — is `separator(0)` alone.
+fn pc0_demo(out: &mut Sink) {
+    use nomt::verif_api::{bit_ops, branch_node};
+    let dir = PathBuf::from(format!("/dev/shm/nomt-verif-bttree-{}-pc0", std::process::id()));
+    let _ = std::fs::remove_dir_all(&dir);
+    std::fs::create_dir_all(&dir).unwrap();
+    let mut k0 = [0u8; 32];
+    k0[0] = 0x40;
+    let mut k1 = [0u8; 32];
+    k1[0] = 0xc0;
+    let steps = vec![
+        branch_node::Step::Push(k0, bit_ops::separator_len(&k0), 7),
+        branch_node::Step::Push(k1, bit_ops::separator_len(&k1), 8),
+    ];
+    let Ok(mut page) = std::panic::catch_unwind(|| branch_node::build(&[0u8; PAGE], 2, 0, 12, None, &steps)) else {
+        out.count("pc0_demo_builder_refused");
+        return;
+    };
+    page[0..4].copy_from_slice(&1u32.to_le_bytes());
+    let mut file = vec![0u8; PAGE];
+    file.extend_from_slice(&page);
+    std::fs::write(dir.join("bbn"), &file).unwrap();
+    let got = bt::reconstruct(&dir.join("bbn"), &[], 2);
+    out.line("case 100000".into(), "case".into());
+    out.line(format!("bbn 1 {}", hex(&page)), "ok".into());
+    let imp = match &got {
+        Ok(idx) => format!("ok {}", branch_digest(idx)),
+        Err(e) => e.clone(),
+    };
+    out.line("recon T - B 2 N 2".into(), imp);
+    if let Ok(idx) = &got {
+        if idx.len() == 1 && idx[0].0 != idx[0].2[0].0 {
+            out.count("pc0_demo_index_key_differs_from_get_key");
+            out.samples.push(format!("pc0 demo: reconstruct files the node under {} while get_key(node, 0) = {}", hex(&idx[0].0), hex(&idx[0].2[0].0)));
+        } else {
+            out.count("pc0_demo_same_key");
+        }
+    }
+    let _ = std::fs::remove_dir_all(&dir);
+}
+
 /// a case that does not end within two minutes is a hang of the code under test (e.g. a sync task that died while the
 /// controller waits for it): remove the scratch directories and leave with a non-zero exit code
 fn watchdog() -> std::sync::Arc<std::sync::atomic::AtomicU64> {
@@ -1002,6 +1053,7 @@ pub fn run(seed: u64, cases: usize, out: &mut Sink) {
     let only: Option<usize> = std::env::var("VH_BTTREE_ONLY").ok().and_then(|s| s.parse().ok());
     if cases == 0 || only.is_none() {
         ungated_demo(out);
+        pc0_demo(out);
     }
     for case in 0..cases {
         if only.map_or(false, |o| o != case) {
